@@ -12,7 +12,7 @@ from c04 import enc_entries
 
 # layer names: plain, dotted (stem = another layer), and legal names with characters that are special somewhere else (quotes,
 # backslash, tab, leading / trailing space - "deps " and "deps" are two layers -, non-ASCII). A history uses three of them.
-NAMES = ["a", "a.b", "c-1", "deps", "deps ", " lead", "it's", 'q"x', "tab\tname", "é", "back\\slash", "a b"]
+NAMES = ["a", "a.b", "a.sbom.x", "c-1", "deps", "deps ", " lead", "it's", 'q"x', "tab\tname", "é", "back\\slash", "a b"]      # "a.sbom.x" is a layer of its own, not an SBOM file of "a"
 SYMS = ["cK", "cD", "cE", "tK", "tR", "tE", "u", "wmG", "wmT", "we", "ws", "wx", "wf", "R", "bK"]
 WRITES = {"wmG", "wmT", "we", "ws", "wx", "wf"}
 SBOM_FORMATS = ["cdx", "spdx", "syft"]
@@ -66,7 +66,7 @@ def concrete(sym, r, name=None):
     if sym == "wf":
         files = [[r.choice(["data.txt", "bin/tool", "lib/libx.so", "deep/er/file", "env.build.txt"]), hx(b"content-%d" % r.randrange(1000))] for _ in range(r.randint(1, 3))]
         # symbolic links inside the layer (to a file, to a directory, dangling, relative upwards): legal layer content
-        links = [[r.choice(["current", "bin/tool-link", "deep/er/link", "dangling"]), r.choice(["data.txt", ".", "no/such/target", "../bin", "deep"])] for _ in range(r.choice([0, 0, 1, 2]))]
+        links = [[r.choice(["current", "bin/tool-link", "deep/er/link", "dangling"]), r.choice(["data.txt", ".", "no/such/target", "../bin", "deep", "../a/data.txt", "../a.b", "../a.b/bin/tool"])] for _ in range(r.choice([0, 0, 1, 2]))]
         return dict(op="fs_write", name=name, files=files, links=links)
     if sym == "R":
         return dict(op="restore")
@@ -462,6 +462,16 @@ def run_history(mon, base, hid, steps, names, sh, snapshots_out=None):
 
 
 def random_history(r, length):
+    steps = _random_history(r, length)
+    for st in steps:
+        # a third of the LayerRef writes go through the OLDEST handle obtained for the layer in this build instead of the newest
+        # (several handles to one layer are legal; each of them writes the layer as it is now)
+        if st["op"].startswith("write_") and r.random() < 0.33:
+            st["stale"] = True
+    return steps
+
+
+def _random_history(r, length):
     steps = []
     alive = set()
     mine = NAMES[:3] if r.random() < 0.4 else r.sample(NAMES, 3)
